@@ -137,7 +137,7 @@ func run(c *lib.Ctx) {
 	phase("A2_wh_grid")
 
 	// ---- A3: random options x listeners ----
-	n := c.N(24000, 4000000)
+	n := c.N(24000, 1000000)
 	for k := 0; k < n; k++ {
 		cs := genCase(c.Rng)
 		observeCase(c, cs)
